@@ -82,6 +82,11 @@ func bigFixedCases(seed uint64) []xzCase {
 		// one match in every distance slot up to 64 MiB (pairs of markers in zeros at distances
 		// just above 2^k and 3*2^(k-1)): the writer's distance coder including its largest slots
 		{ID: "big8", LC: 3, LP: 0, PB: 2, DictCap: 1 << 26, Check: "crc32", Matcher: 0, Family: "farmarks", N: 1<<26 + 20000, Part: "one", Seed: seed + 9},
+		// compressible, then more than 256 KiB of noise, then compressible, in one block: the
+		// chunk trace L .. U U U .. L (several stored chunks in a row between LZMA chunks)
+		{ID: "big9", LC: 3, LP: 0, PB: 2, DictCap: 1 << 20, Check: "crc32", Matcher: 0, Family: "sandwich", N: 640000, Part: "one", Seed: seed + 10},
+		{ID: "big10", LC: 3, LP: 0, PB: 2, DictCap: 0, Check: "default", Matcher: 0, Family: "sandwich2", N: 700000, Part: "random", Seed: seed + 11},
+		{ID: "big11", LC: 2, LP: 1, PB: 1, DictCap: 65536, BufSize: 273, Check: "none", Matcher: 1, Family: "sandwich", N: 560000, Part: "iocopy", Seed: seed + 12},
 	}
 }
 
